@@ -187,6 +187,29 @@ OnExit(r, ev) ==
   /\ run' = [r EXCEPT !.d.phase = "done", !.d.why = IF d.phase = "done" THEN d.why ELSE "unexpected", !.msg = << >>]
 
 IsPrefix(a, b) == Len(a) <= Len(b) /\ SubSeq(b, 1, Len(a)) = a
+IsSuffix(a, b) == Len(a) <= Len(b) /\ SubSeq(b, Len(b) - Len(a) + 1, Len(b)) = a
+
+\* one run of the binary with a command line other than `[-i] <source file>` (src/bin.rs): Driver!CmdLine says what
+\* must happen; `ran` = the program in the file was executed, `prompts` = number of prompts shown
+OnCmdline(ev) ==
+  LET o == CmdLine(ev.argv) IN
+  /\ Check(~ev.timeout, "hang", <<"the emulator did not terminate on the command line", ev.args>>)
+  \* what the listed properties say (C15: ends by itself without aborting; C14/C20: nothing runs without a source,
+  \* stepping is on exactly when -i / --interpreted is given)
+  /\ Check(ev.timeout \/ ev.status \in {0, 1, 2}, "cmdline", <<"command line", ev.args, "exit status", ev.status>>)
+  /\ Check(ev.timeout \/ (ev.ran <=> o.k = "run"), "cmdline", <<"command line", ev.args, "expected", o.k, "the program ran:", ev.ran>>)
+  /\ Check(ev.timeout \/ ((ev.prompts > 0) <=> (o.k = "run" /\ o.interp)), "cmdline", <<"command line", ev.args, "prompts shown", ev.prompts, "expected", o>>)
+  \* the exact status and wording of src/bin.rs: part of the specification, owned by no listed property (noted only)
+  /\ Check(ev.timeout \/
+           CASE o.k = "usage" -> ev.status # 0 /\ ev.bytes = << >>
+             [] o.k = "info"  -> ev.status = 0
+             [] o.k = "exit1" -> /\ ev.status = 1
+                                 /\ IF o.exact THEN ev.bytes = o.out
+                                    ELSE IsPrefix(o.out, ev.bytes) /\ IsSuffix(MsgReadErrorEnd, ev.bytes)
+             [] o.k = "run"   -> ev.status = 0,
+           "cmdline-wording", <<"command line", ev.args, "expected", o.k, "status", ev.status, "stdout", ev.bytes>>)
+  /\ UNCHANGED run
+
 \* first position at which a and b differ (Len + 1 of the shorter one if it is a prefix of the other), by bisection
 RECURSIVE FirstDiffIn(_, _, _, _)
 FirstDiffIn(a, b, lo, hi) ==
@@ -251,6 +274,7 @@ TraceNext ==
   /\ LET ev == Rec[l] IN
      CASE ev.ev = "program" /\ "raw" \in DOMAIN ev -> run' = [raw |-> TRUE, note |-> ev.note, head |-> ev.source_head]
        [] ev.ev = "parse" -> OnParse(ev)
+       [] ev.ev = "cmdline" -> OnCmdline(ev)
        [] ev.ev = "stdout" /\ IsRaw(run) -> OnRawStdout(run, ev)
        [] IsRaw(run) -> UNCHANGED run
        [] ev.ev = "program" -> run' = NewRun(ev)
